@@ -139,10 +139,48 @@ func RandOffset(r *rng.Rng, regime int) float64 {
 	return 0
 }
 
+// RoundMap draws a mapping built from a "round" base (powers and roots of two, 1+2^-k) and a
+// round offset (integer, half-integer, or 1/log2(gamma)), as a decoder may be handed: with such
+// parameters (index-offset)/multiplier hits exact integers, i.e. bin bounds sit exactly on binade boundaries.
+func RoundMap(r *rng.Rng, kind int) *Map {
+	for try := 0; try < 20; try++ {
+		var g float64
+		switch r.Pick(3, 3, 3) {
+		case 0:
+			g = []float64{2, 4, 16, 1.5, 3}[r.Intn(5)]
+		case 1:
+			g = math.Pow(2, 1/float64(int(1)<<uint(r.Range(1, 9))))
+		default:
+			g = 1 + math.Ldexp(1, -r.Range(1, 9))
+		}
+		var off float64
+		switch r.Pick(3, 3, 2, 2) {
+		case 0:
+			off = 0
+		case 1:
+			off = float64(r.Range(-2000, 2000))
+		case 2:
+			off = float64(r.Range(-2000, 2000)) + 0.5
+		default:
+			off = 1 / math.Log2(g)
+		}
+		m, err := NewMapGamma(kind, g, off)
+		if err != nil || !(m.Min < m.Max) || m.IMax-m.IMin < 8 || m.M.RelativeAccuracy() >= 0.995 {
+			continue
+		}
+		return m
+	}
+	m, _ := NewMap(kind, 0.01)
+	return m
+}
+
 // RandMap draws a mapping over kinds, accuracies and offsets. When moderate is
 // set, accuracies are kept >= 1e-4 and offsets small so that index ranges stay
 // compatible with dense stores' span budget.
 func RandMap(r *rng.Rng, moderate bool) *Map {
+	if r.P(0.08) {
+		return RoundMap(r, r.Intn(3))
+	}
 	for {
 		kind := r.Intn(3)
 		alpha := RandAlpha(r)
@@ -341,4 +379,16 @@ func (m *Map) Matches(y, x float64) bool {
 		return y == 0 || m.Within(y, x)
 	}
 	return m.Within(y, x)
+}
+
+// SameParams tells whether two mappings have the same kind and (up to 1e-12 relative) the same
+// base and index offset - the harness's own notion of "equal mapping", independent of the library's Equals.
+func SameParams(a, b *Map) bool {
+	close := func(x, y float64) bool {
+		if x == y {
+			return true
+		}
+		return math.Abs(x-y) <= 1e-12*math.Max(math.Abs(x), math.Abs(y))
+	}
+	return a.Kind == b.Kind && close(a.Gamma, b.Gamma) && close(a.Offset, b.Offset)
 }
